@@ -63,6 +63,9 @@ def run(chk):
     d3b_prefix_noop(chk, prog)
     ed_undefined(chk, prog)
     d5_memptr(chk, prog)
+    from . import c01_exact
+    chk.rule("D6", "final registers, flags, MEMPTR/Q and the ordered bus accesses of every encoding == symbolic Z80 reference model (finite-domain term equivalence)")
+    c01_exact.run_exact(chk, prog, chk.tier)
     return chk.finish(EXPL)
 
 
